@@ -546,6 +546,10 @@ def run(ctx, rep) -> None:
     rep.rule("C04.6", "step(closure): gradient presence is read (blocking, selector, masking) only after the closure has produced this step's gradients")
     rep.attempt("gradients_read_after_closure", gradients_read_after_closure, ctx, rep, "C04.6")
     rep.attempt("selector_construction", selector_construction, ctx, rep, "C04.5")
+    from .common import utility_semantics
+
+    rep.rule("C04.7", "the pure utilities this property is built on compute what they document (concrete interpretation on small cases)")
+    rep.attempt("utility_semantics", utility_semantics, ctx, rep, "C04.7", ("merge_small_dims", "compress_list", "generate_pairwise_indices"))
     rep.attempt("stateful_cursors_advance", stateful_cursors_advance, ctx, rep, "C04.5")
     rep.assume("seeds of the index-space typing (sv/spaces.py): _global_blocked_params:G, _distributor_selector:G->L, _global_grad_selector:G->GM, _local_grad_selector:L->LM, _merge_and_block_gradients():LM")
     rep.assume("bit-for-bit preservation of untouched tensors follows from C04.3 plus torch semantics (not decided here)")
